@@ -164,3 +164,13 @@ Proof. induction ps; simpl; auto. rewrite app_length; lia. Qed.
 
 Lemma firstn_app_exact2 {A} (a b : list A) n : length a = n -> firstn n (a ++ b) = a.
 Proof. intros <-. apply firstn_app_exact. Qed.
+
+(* two splittings of one list: the shorter first part is a prefix of the other *)
+Lemma app_split_len {T} (a : list T) : forall b c d, a ++ b = c ++ d -> length a <= length c ->
+  exists q, c = a ++ q /\ b = q ++ d.
+Proof.
+  induction a as [|x a IH]; intros b c d E L; simpl in *.
+  - exists c. auto.
+  - destruct c as [|y c]; simpl in *; [lia|]. injection E as -> E.
+    destruct (IH b c d E ltac:(lia)) as (q & -> & ->). exists q. auto.
+Qed.
